@@ -431,3 +431,46 @@ def native(w):
         mp = Cell(bitarray(format(3, '08b')) + bitarray(''.join(format(x, '08b') for x in h)) + bitarray(format(orig.get_depth(0), '016b')), [m], 3)
         k, r = call(M.check_proof, mp, h)
         w.claim('a mutated proof cell / substituted pruned hash is rejected', k == 'raise' and isinstance(r, M.ProofError))
+
+
+@obligation('C11.complete_nested', 'C11', cases=[{'inner': t, 'sib': s} for t in (3, 4) for s in ('pruned1', 'plain1', 'plain0')],
+            fuc=[P + 'check_proof', C + '__init__', C + 'resolve_mask', C + 'calculate_hashes', C + 'get_hash'],
+            descr='completeness across TWO Merkle levels (relational, real constructor): T = X(M(P(sibling, A))) where M is an inner Merkle '
+                  'proof/update cell and the sibling already carries a level-1 pruned branch (masks 1 and 2 meet in P: incomparable masks); '
+                  'the outer proof prunes A BELOW the inner Merkle cell (pruned branch with level mask 0b10 carrying hash_0(A)); the outer '
+                  'Merkle-proof cell over the pruned tree is accepted against hash_0(T)')
+def complete_nested(w, inner, sib):
+    M = _M()
+    a, a_obs = abstract_child(w, 'A', 'plain', 0)
+    skind, smask = sib[:-1], int(sib[-1])
+    s, s_obs = abstract_child(w, 'S', skind, smask)
+    # B: pruned branch of level mask 0b10 (significant level 2): one stored hash/depth, reported at levels 0 and 1
+    b, b_obs = abstract_child(w, 'B', 'pruned', 2, stored={0: (a_obs.hash_at(0), a_obs.depth_at(0))})
+    pbits = w.bits('PD', 8 * w.int('pq', 0, 60) + 5)
+    xbits = w.bits('XD', 16)
+    res = []
+    for sub in (a, b):
+        kp, p = call(_mk_cell, w, pbits, [s, sub], -1)
+        if kp != 'ok':
+            return w.claim('construction refused for depth only', is_error(p))
+        if inner == 3:
+            mb = E.lit('00000011') + w.bits('mh', 256) + w.bits('md', 16)
+            km, m = call(_mk_cell, w, mb, [p], 3)
+        else:
+            other, _ = abstract_child(w, 'OLD', 'plain', 0)
+            mb = E.lit('00000100') + w.bits('mh', 512) + w.bits('md', 32)
+            km, m = call(_mk_cell, w, mb, [other, p], 4)
+        if km != 'ok':
+            return w.claim('construction refused for depth only', is_error(m))
+        kx, x = call(_mk_cell, w, xbits, [m], -1)
+        if kx != 'ok':
+            return w.claim('construction refused for depth only', is_error(x))
+        res.append(x)
+    t, t2 = res
+    orig = t.get_hash(0)
+    k3, proof = call(_mk_cell, w, E.lit('00000011') + w.bytes_seq(orig) + E.uint(t.get_depth(0), 16), [t2], 3)
+    if k3 != 'ok':
+        return w.claim('construction refused for depth only', is_error(proof))
+    w.claim('pruning below the inner Merkle cell keeps the level-0 hash of the tree', t2.get_hash(0) == orig)
+    k, r = call(M.check_proof, proof, orig)
+    w.claim('the proof built by pruning below an inner Merkle cell is accepted against the original root hash', k == 'ok')
